@@ -1,7 +1,7 @@
 #!/venv/bin/python
 """Confirms one independently written change and stores it under seeded/<id>/.
 
-usage: tools/ingest_seed.py <dir with patch_<id>.diff demo_<id>.py meta_<id>.json> <id>
+usage: tools/ingest_seed.py <dir with patch_<id>.diff demo_<id>.py meta_<id>.json> <id> [<id to store under>]
 
 The change is applied to /repo (git apply), the author's demo run with and
 without it, every check run against it, and /repo restored (tools/try_seed.py).
@@ -19,6 +19,7 @@ VERIF = os.path.dirname(os.path.dirname(os.path.abspath(__file__)))
 
 def main():
   src, sid = sys.argv[1], sys.argv[2]
+  store_as = sys.argv[3] if len(sys.argv) > 3 else sid
   patch = os.path.join(src, f'patch_{sid}.diff')
   demo = os.path.join(src, f'demo_{sid}.py')
   with open(os.path.join(src, f'meta_{sid}.json')) as f:
@@ -34,12 +35,13 @@ def main():
     sys.exit(f'{sid}: NOT CONFIRMED demo clean rc={c} patched rc={p}')
   det = [k for k, v in res['checks'].items() if v['rc'] == 1]
   err = [k for k, v in res['checks'].items() if v['rc'] not in (0, 1)]
-  d = os.path.join(VERIF, 'seeded', sid)
+  d = os.path.join(VERIF, 'seeded', store_as)
   os.makedirs(d, exist_ok=True)
   shutil.copy(patch, os.path.join(d, 'patch.diff'))
   shutil.copy(demo, os.path.join(d, 'demo.py'))
   meta = {
-      'id': sid,
+      'id': store_as,
+      'author_id': sid,
       'property': am.get('property', sid.split('_')[0]),
       'summary': am.get('summary', ''),
       'mechanism': am.get('mechanism', ''),
@@ -64,7 +66,7 @@ def main():
   with open(os.path.join(d, 'meta.json'), 'w') as f:
     json.dump(meta, f, indent=1)
     f.write('\n')
-  print(f'{sid}: confirmed (clean rc={c}, patched rc={p}); detected by '
+  print(f'{store_as}: confirmed (clean rc={c}, patched rc={p}); detected by '
         f'{",".join(det) or "none"}' + (f'; ANALYSIS-ERROR {err}' if err else ''))
 
 
